@@ -108,8 +108,8 @@ static inline bool orc_member(const struct orc_rule_s *R, struct orc_dt_s D, str
 		return false;
 	}
 	/* --- the period x lies in is a whole multiple of INTERVAL away from DTSTART's */
-	long long dist;
-	const long long dx = orc_daynum(x.y, x.m, x.d), dD = orc_daynum(D.y, D.m, D.d);
+	int dist;
+	const int dx = (int)orc_daynum(x.y, x.m, x.d), dD = (int)orc_daynum(D.y, D.m, D.d);
 	switch (f) {
 	case ORC_YEARLY:
 		dist = x.y - D.y;
